@@ -87,7 +87,7 @@ def well_formed(ops):
     frames = []
     for o in ops:
         k = o[0]
-        if k in ("borrow", "take", "io", "cfg", "get") and o[1] >= nh:
+        if k in ("borrow", "take", "io", "cfg", "get", "borrow_fail") and o[1] >= nh:
             return False
         if k == "borrow" and state[o[1]] == "live":
             state[o[1]] = "lend"
@@ -136,7 +136,7 @@ class OwnSuite(Suite):
             prime(0)
             for o in case["ops"]:
                 k = o[0]
-                if k in ("borrow", "take", "io", "cfg", "get") and o[1] >= len(handles):
+                if k in ("borrow", "take", "io", "cfg", "get", "borrow_fail") and o[1] >= len(handles):
                     # can only happen when an earlier borrow()/take() misbehaved: report it as an observation
                     out.append([[97], bool(sio._closed), len(handles)])
                     continue
@@ -168,6 +168,34 @@ class OwnSuite(Suite):
                             else:
                                 cm.__exit__(None, None, None)
                         r = [0]
+                    elif k == "borrow_fail":
+                        # borrow() of a handle whose configuration cannot be copied (an open file attached as stream):
+                        # building the borrower fails -- the lender must be left as it was
+                        h = handles[o[1]]
+                        import os as _os
+                        f = open(_os.devnull, "w")
+                        try:
+                            scm = h.with_stream(f)
+                            scm.__enter__()
+                        except (tbot.error.ChannelBorrowedError, tbot.error.ChannelTakenError):
+                            f.close()
+                            raise
+                        try:
+                            cm = h.borrow()
+                            try:
+                                cm.__enter__()
+                                r = [13]          # the borrow unexpectedly succeeded
+                                cm.__exit__(None, None, None)
+                            except (tbot.error.ChannelBorrowedError, tbot.error.ChannelTakenError):
+                                raise
+                            except Exception:
+                                r = [12]          # TypeError from deepcopy: no borrower exists
+                        finally:
+                            try:
+                                scm.__exit__(None, None, None)
+                            except (tbot.error.ChannelBorrowedError, tbot.error.ChannelTakenError):
+                                pass
+                            f.close()
                     elif k == "take":
                         new = handles[o[1]].take()
                         handles.append(new)
@@ -326,9 +354,14 @@ class OwnSuite(Suite):
         for o, ob in zip(case["ops"], obs):
             r, tclosed, nhandles = ob
             k = o[0]
-            if k in ("borrow", "take", "io", "cfg", "get") and o[1] >= nh:
+            if k in ("borrow", "take", "io", "cfg", "get", "borrow_fail") and o[1] >= nh:
                 return fails      # malformed history (index refers to a handle that was never created)
-            if k == "borrow":
+            if k == "borrow_fail":
+                want = {"live": [12], "lend": [10], "taken": [11]}[state[o[1]]]
+                if r != want:
+                    fails.append(f"borrow() of the {state[o[1]]} handle {o[1]} with an un-copyable stream attached gave {r!r}, expected {want!r}")
+                    return fails
+            elif k == "borrow":
                 h = o[1]
                 if state[h] == "live":
                     if r != [0]:
@@ -427,4 +460,47 @@ class OwnSuite(Suite):
         return None
 
 
-SUITES = [OwnSuite()]
+
+class BorrowFailSuite(OwnSuite):
+    """histories with borrows that fail while the borrower is being built (the handle's configuration holds something
+    copy.deepcopy refuses: an open file attached as a stream): no borrower exists afterwards, so the lender must work as
+    before -- at every nesting depth.  Outside the Coq model: judged by the reference simulation of the oracle."""
+    name = "borrow_fail"
+    model_fn = None
+
+    def gen(self, tier, rng):
+        fixed = [
+            [["borrow_fail", 0], ["io", 0, "read"], ["io", 0, "write"], ["borrow", 0], ["io", 1, "read"], ["end", 0], ["io", 0, "read"]],
+            [["borrow", 0], ["borrow_fail", 1], ["io", 1, "read"], ["io", 0, "read"], ["end", 0], ["io", 0, "send"]],
+            [["borrow", 0], ["borrow", 1], ["borrow_fail", 2], ["io", 2, "closed"], ["io", 2, "read"], ["end", 0], ["io", 1, "read"], ["end", 0], ["io", 0, "read"]],
+            [["borrow", 0], ["borrow_fail", 0], ["end", 0], ["io", 0, "read"]],
+            [["take", 0], ["borrow_fail", 0], ["borrow_fail", 1], ["io", 1, "read"], ["take", 1], ["io", 2, "read"]],
+        ]
+        for ops in fixed:
+            yield {"ops": ops + [["get", 0]]}
+        for _ in range(1500 if tier == "thorough" else 300):
+            ops = [[rng.choice(["borrow", "borrow", "take", "borrow_fail"]), 0]]
+            for _ in range(rng.randint(2, 8)):
+                x = rng.random()
+                h = rng.randrange(4)
+                if x < 0.25:
+                    ops.append(["borrow_fail", h])
+                elif x < 0.4:
+                    ops.append(["borrow", h])
+                elif x < 0.5:
+                    ops.append(["end", rng.choice([0, 0, 1])])
+                elif x < 0.58:
+                    ops.append(["take", h])
+                else:
+                    ops.append(["io", h, rng.choice(IOK)])
+            if well_formed(ops):
+                yield {"ops": ops}
+
+    def nontrivial(self, case, obs):
+        return any(o[0] == "borrow_fail" for o in case["ops"])
+
+    def klass(self, case, obs):
+        return "fails=%d" % min(3, sum(1 for o in case["ops"] if o[0] == "borrow_fail"))
+
+
+SUITES = [OwnSuite(), BorrowFailSuite()]
